@@ -363,6 +363,26 @@ func genCase(t *rapid.T) Case {
 		top := c.Mods[0].Nodes[0]
 		top.Kids = append([]*sg.Node{outer}, top.Kids...)
 	}
+	if g.Chance(1, 3, "topchoices") {
+		// choices directly at the top level of every module (the root of the model set then has the choices of several
+		// modules): cases with defaults and with mandatory leaves, a default case in some
+		str := func() *sg.TypeSpec { return &sg.TypeSpec{Name: "string"} }
+		for i, m := range c.Mods {
+			if m.BelongsTo != "" && g.Bool("topchsub") {
+				continue
+			}
+			d1, d2 := "x", "y"
+			ch := &sg.Node{Kind: "choice", Name: fmt.Sprintf("gt%d-ch", i), Kids: []*sg.Node{
+				{Kind: "case", Name: fmt.Sprintf("gt%d-ca", i), Kids: []*sg.Node{{Kind: "leaf", Name: fmt.Sprintf("gt%d-a", i), Type: str(), Default: &d1},
+					{Kind: "leaf", Name: fmt.Sprintf("gt%d-am", i), Type: str(), Mandatory: "true"}}},
+				{Kind: "case", Name: fmt.Sprintf("gt%d-cb", i), Kids: []*sg.Node{{Kind: "leaf", Name: fmt.Sprintf("gt%d-b", i), Type: str(), Default: &d2},
+					{Kind: "leaf", Name: fmt.Sprintf("gt%d-bo", i), Type: str()}}}}}
+			if g.Bool("topchdef") {
+				ch.Default = sp(fmt.Sprintf("gt%d-cb", i))
+			}
+			m.Nodes = append(m.Nodes, ch)
+		}
+	}
 	nested := g.Chance(1, 3, "nestgadget") && len(c.Mods[0].Nodes) > 0
 	if nested {
 		// a choice inside a case of another choice, mandatory leaves in the outer case and in the nested case: the outer
